@@ -450,6 +450,22 @@ def check_injective_case(case):
 # ----------------------------------------------------------------------------
 # C10
 
+_QUOTED = None
+
+
+def outside_alphabet(s):
+    """True when `s` contains, outside double-quoted atoms, a character that no terminal of the documented grammars can
+    contain (letters, digits, _ ( ) ~ | & the arrow --> and blanks are all there is): such a string is outside every
+    documented language however it is split into tokens.  Undecided (False) when the quotes do not pair up."""
+    import re
+    t = re.sub(r'"(?:[^"\\\n]|\\.)*"', ' ', s)
+    if '"' in t:
+        return False
+    t = t.replace('-->', ' ')
+    allowed = set('abcdefghijklmnopqrstuvwxyzABCDEFGHIJKLMNOPQRSTUVWXYZ0123456789_()~|& \t\f\r\n')
+    return any(ch not in allowed for ch in t)
+
+
 def check_parse_case(case):
     """case = (logic, [strings], compare): contract of Parser.__call__ -
     returns a formula of exactly this logic, or raises the package's
@@ -489,6 +505,8 @@ def check_parse_case(case):
                 bad('parser:ensures:lang', 'returned a formula with nodes of %r' % (trees.langs_in(f),))
             if not trees.wf_any(logic, rt):
                 bad('parser:ensures:wf', 'returned %s, not a %s formula' % (rt, logic))
+            if compare is None and outside_alphabet(s):
+                bad('parser:accepts_excluded', 'accepted (as %s) a string with a character no terminal of the documented grammar contains' % (rt,))
             if compare:
                 if doc == 'lex' or not doc:
                     bad('parser:accepts_excluded', 'accepted (as %s) a string the documented grammar excludes' % (rt,))
